@@ -253,7 +253,7 @@ class Engine:
             ob = (r["detail"] or r["reason"]).strip('"')
             sig = "copy:%s:%s:%s" % (ob, "layout" if sc["pair"] in ("reg2dir", "dir2dir") else "registry", cause_of(sc))
             if ob == "C04:child-missing":
-                sig += ":" + missing_class(t["events"], r["line"])
+                sig += ":" + missing_class(t["events"], r["line"], sc)
             what = "%s at event %s of trace %s (shape %s, %s, opts %s, init %s, tag0 %s, mode %s, faults %s%s%s)" % (
                 ob, json.dumps(r["event"], sort_keys=True)[:300], t["id"], sc["shape"], sc["pair"], json.dumps(sc["opts"]),
                 ",".join(sc["init"]), sc["tag0"], sc["mode"], json.dumps(sc.get("faults", [])),
@@ -364,11 +364,16 @@ class Engine:
         return [m["id"] for m in demos]
 
 
-def missing_class(events, upto):
+def missing_class(events, upto, sc):
     """For a child-missing rejection: was the missing child the object of a request that got an injected
-    fault ("missing-faulted": the parent ignored that child's own error) or not ("missing-unfetched": the
-    child was cancelled / never fetched)?  Part of the violation signature."""
-    kids, init_m, store, faulted, put = {}, set(), None, set(), set()
+    *fatal* fault ("missing-faulted": the parent ignored that child's own error) or not ("missing-unfetched":
+    the child was cancelled, possibly while a transient fault was being retried, or never fetched)?  Part of
+    the violation signature."""
+    kids, init_m, store, put = {}, set(), None, set()
+    faulted = set(f.get("n") for f in (sc.get("faults") or []) if f.get("kind") in FATAL)
+    faulted |= set(x.get("n") for x in (sc.get("script") or []) if x.get("op") == "fault" and x.get("kind") in FATAL)
+    # ... and the fault was really injected in this run (a planned position may never be reached)
+    faulted &= set(e.get("n") for e in events if e["ev"] == "req" and e.get("flt") == 1)
     for i, e in enumerate(events):
         if upto is not None and i > upto:
             break
@@ -376,8 +381,6 @@ def missing_class(events, upto):
             kids.setdefault(e["p"], set()).add(e["c"])
         elif e["ev"] == "init":
             init_m = set(e["mans"])
-        if e["ev"] == "req" and e.get("flt") == 1:
-            faulted.add(e.get("n"))
         if e["ev"] == "req" and e.get("class") == "manifest_put" and e.get("st") == 201:
             put.add(e.get("pn"))
         if "mans" in e and e["ev"] != "init":
